@@ -1,5 +1,6 @@
 #!/bin/bash
 # usage: tryvariant.sh <patch> <prop>...   (development helper: applies a patch to a scratch copy and runs the checker on it)
+unset GOTOOLCHAIN GOFLAGS GOPROXY GOSUMDB
 P=$1; shift
 D=$(mktemp -d /tmp/tryvar.XXXXXX)
 rsync -a --exclude .git --exclude _out /repo/ $D/
